@@ -84,6 +84,8 @@ def gen_file(rng):
         lines.append("# units: degC")
     if rng.random() < 0.2:
         lines.append("# x0: 0")
+    if rng.random() < 0.15:
+        lines.insert(rng.randrange(len(lines) + 1), rng.choice(["#", "# ", "# written by a script"]))      # comment lines among the metadata lines
     lines.append(rng.choice([" ", "\t", "  "]).join(header))
     lexed = []
     for (a, b, s, vals) in rows:
@@ -111,7 +113,7 @@ def gen_file(rng):
         lexed.append(toks)
         lines.append(rng.choice([" ", "\t", "   "]).join(toks))
         if rng.random() < 0.05:
-            lines.append("# a comment line")
+            lines.append(rng.choice(["# a comment line", "#", "# ", "#comment without a space", "#\t"]))
     return {"times": sorted(times), "leads": sorted(leads), "locs": sorted(locs), "meta": meta, "cols": cols, "values": values,
             "header": header, "lexed": lexed, "text": "\n".join(lines) + "\n"}
 
